@@ -41,6 +41,7 @@ EXTENDS Integers, Sequences, TLC, SQDecimal
 VARIABLES p, ca, cb
 
 Precs == {1, 2, 3}
+QuickPrecs == {1, 2}      \* quick tier (cfg: CONSTANT Precs <- QuickPrecs)
 Exps == -3..3
 
 Extra(q) ==
